@@ -9,6 +9,9 @@
 pub mod vlib;
 #[path = "../../engine_k/h_core/src/c19_ops.rs"]
 pub mod c19_ops;
+#[path = "../../engine_k/h_core/src/c12_guard.rs"]
+pub mod c12_guard;
+pub use rln::protocol;
 pub mod zk {
     pub use zerokit_utils::merkle_tree::{Hasher, ZerokitMerkleProof, ZerokitMerkleTree};
 }
@@ -78,6 +81,8 @@ fn dispatch(name: &str, s: &mut TapeSrc) -> bool {
         "c19_fr_neg" => c19_ops::body_neg_fr(s),
         "c19_fr_terncond" => c19_ops::body_terncond_fr(s),
         "c19_fr_divmod" => c19_ops::body_divmod_fr(s),
+        "c12_range_check" => c12_guard::body_range_check(s),
+        "c12_range_check_bits" => c12_guard::body_range_check_bits(s),
         n if n.starts_with("scn_") => return scenarios::dispatch(name, s),
         _ => return trees::dispatch(name, s),
     }
